@@ -1,9 +1,47 @@
-(** C11 — well-formed AML is parsed into a namespace that matches the program.  Statements only. *)
+(** C11 — well-formed AML is parsed into a namespace that matches the program.
+    Statements only; every proof is [exact <lemma>] (Aml/LexRoundtrip.v). *)
 From Coq Require Import NArith List.
-From FF Require Import Lib.Word Gen.Consts_device_acpi_aml Aml.Stream Aml.Lex Aml.Grammar.
+From FF Require Import Lib.Word Gen.Consts_device_acpi_aml Aml.Stream Aml.Lex Aml.LexProofs Aml.Grammar Aml.LexRoundtrip.
 Import ListNotations.
 Local Open Scope N_scope.
 
-Theorem C11_placeholder_enc_op : forall op, op <= 0xff -> enc_op op = [op].
-Proof. intros op H. unfold enc_op. apply N.leb_le in H. rewrite H. reflexivity. Qed.
-Print Assumptions C11_placeholder_enc_op.
+(** [lex_roundtrip] (full).  [at_token r pre tok post]: the reader is positioned in front of the bytes [tok] of a
+    table pre ++ tok ++ post, the token lies inside the current package, the reader invariant holds.  Each lexer
+    function returns exactly the encoded value and leaves the reader right behind the token. *)
+
+(** PkgLength: every value in each admissible width k = 1 (v < 64), 2 (v < 2^12), 3 (v < 2^20), 4 (v < 2^28) *)
+Theorem C11_lex_roundtrip_pkglen : forall k v r pre post,
+  pkglen_admissible k v -> at_token r pre (enc_pkglen k v) post ->
+  parsePkgLength r = Ok (v, true, set_offset_raw r (lenN pre + k)).
+Proof. exact pkglen_roundtrip. Qed.
+Print Assumptions C11_lex_roundtrip_pkglen.
+
+(** numbers: n <= 8 little-endian bytes *)
+Theorem C11_lex_roundtrip_num : forall (n : nat) v r pre post,
+  (n <= 8)%nat -> v < 2 ^ (N.of_nat n * 8) -> at_token r pre (le_bytes n v) post ->
+  parseNumConstant (N.of_nat n) r = Ok (v, true, set_offset_raw r (lenN pre + N.of_nat n)).
+Proof. exact num_roundtrip. Qed.
+Print Assumptions C11_lex_roundtrip_num.
+
+(** strings: ASCII characters 1..127 and the terminator; the []byte is the string without the terminator *)
+Theorem C11_lex_roundtrip_string : forall str r pre post,
+  Forall ascii_char str -> at_token r pre (str ++ [0]) post ->
+  parseString r = Ok (mkSlice (Some (lenN pre)) (lenN str), true, set_offset_raw r (lenN pre + lenN str + 1)).
+Proof. exact string_roundtrip. Qed.
+Print Assumptions C11_lex_roundtrip_string.
+
+(** every name form: root / any number of parent prefixes, NullName, NameSeg, DualNamePath, MultiNamePath
+    (fewer than 64 segments; a bare NameSeg starts with 'A'..'Z' or '_').  The []byte covers the whole encoding
+    except a NullName terminator. *)
+Theorem C11_lex_roundtrip_name : forall n r pre post,
+  wf_name n -> at_token r pre (enc_name n) post ->
+  parseNameString r = Ok (mkSlice (Some (lenN pre)) (name_slice_len n), true, set_offset_raw r (lenN pre + lenN (enc_name n))).
+Proof. exact name_roundtrip. Qed.
+Print Assumptions C11_lex_roundtrip_name.
+
+(** every opcode of the generated opcode maps, one- and two-byte *)
+Theorem C11_lex_roundtrip_opcode : forall op r pre post,
+  valid_opcode op -> at_token r pre (enc_op op) post ->
+  nextOpcode r = Ok (op, true, set_offset_raw r (lenN pre + lenN (enc_op op))).
+Proof. exact opcode_roundtrip. Qed.
+Print Assumptions C11_lex_roundtrip_opcode.
